@@ -572,12 +572,18 @@ async fn copy_to_qcow2<T: Qcow2IoOps>(
     off: u64,
     bytes: usize,
 ) -> Qcow2Result<usize> {
-    let mut buf = Qcow2IoBuf::<u8>::new(bytes);
+    // the device takes whole 512 byte blocks only: the tail of a raw file
+    // whose size isn't a multiple of that is padded with zeros (the image's
+    // virtual size is the raw size rounded up to the cluster size)
+    let bs = 512;
+    let mut buf = Qcow2IoBuf::<u8>::new((bytes + bs - 1) & !(bs - 1));
 
     src.seek(SeekFrom::Start(off))?;
-    let res = src.read(&mut buf)?;
+    let res = src.read(&mut buf[..bytes])?;
+    let padded = (res + bs - 1) & !(bs - 1);
+    buf[res..padded].fill(0);
 
-    dev.write_at(&buf[0..res], off).await?;
+    dev.write_at(&buf[0..padded], off).await?;
     Ok(res)
 }
 
